@@ -9,6 +9,7 @@ import (
 	"regexp"
 	"sort"
 	"strings"
+	"time"
 
 	"pgregory.net/rapid"
 )
@@ -128,8 +129,12 @@ func numericDigest(m map[string]interface{}) string {
 
 func judgeC09(c *Ctx, sc *Scenario) *Violation {
 	if sc.Engine == "graphfeed" {
+		t0 := time.Now()
+		defer func() { c.Stats.Extra["wall_s_graph_feed_enumeration"] += time.Since(t0).Seconds() }()
 		return judgeGraphFeed(c, sc, "C09", AllNumericFields)
 	}
+	tAll := time.Now()
+	defer func() { c.Stats.Extra["wall_s_metamorphic_evaluations"] += time.Since(tAll).Seconds() }()
 	var p c09Params
 	decodeParams(sc, &p)
 	w := sc.World
@@ -152,7 +157,13 @@ func judgeC09(c *Ctx, sc *Scenario) *Violation {
 	var ref string
 	var refDesc string
 	runVariant := func(desc string, vsc *Scenario, vsite *Site, vex *Expected) *Violation {
+		tRun := time.Now()
 		res := RunA(c.T, c.H, vsc, vsite)
+		if vsc.Plan.RealPeers {
+			c.Stats.Extra["wall_s_cli_runs_against_real_git"] += time.Since(tRun).Seconds()
+		} else {
+			c.Stats.Extra["wall_s_cli_runs_against_simulated_peers"] += time.Since(tRun).Seconds()
+		}
 		c.Stats.AddResult(res)
 		if res.Panic != "" {
 			return &Violation{"C09/panic", desc + ": " + firstLines(res.Panic, 8)}
@@ -226,7 +237,9 @@ func judgeC09(c *Ctx, sc *Scenario) *Violation {
 			for _, layout := range []string{"loose", "packed-refs", "packed", "bitmap", "promisor"} {
 				lw := w.Clone()
 				lw.Layout = layout
+				tMat := time.Now()
 				ls, err := Materialise(lw)
+				c.Stats.Extra["wall_s_writing_layout_variants_with_real_git"] += time.Since(tMat).Seconds()
 				if err != nil {
 					continue
 				}
